@@ -360,7 +360,7 @@ class IntegerSequence(SequenceBase):
                 self.p_stop = self.p_start
             else:
                 self.i_step = IntegerInterval.from_integer(
-                    int(self.p_stop - self.p_start) / (reps - 1)
+                    int(self.p_stop - self.p_start) // (reps - 1)
                 )
         else:
             # This means that format_num == 4.
